@@ -121,3 +121,25 @@ func (r *scriptedReader) readsJSON() [][]int {
 	}
 	return out
 }
+
+// seekReader is a scriptedReader that can also seek, as *os.File and
+// bytes.Reader can: what a call consumed is still the reader's position.
+type seekReader struct{ *scriptedReader }
+
+func (r seekReader) Seek(offset int64, whence int) (int64, error) {
+	var abs int64
+	switch whence {
+	case io.SeekStart:
+		abs = offset
+	case io.SeekCurrent:
+		abs = int64(r.pos) + offset
+	case io.SeekEnd:
+		abs = int64(len(r.data)) + offset
+	}
+	if abs < 0 {
+		return 0, errors.New("verif: negative position")
+	}
+	r.pos = int(abs)
+	r.ended = false
+	return abs, nil
+}
